@@ -213,14 +213,16 @@ Record row := mkRow {
   r_unchanged : bool;      (* every (non-receiver) operand array is bit-for-bit what it was before the call *)
   r_disjoint : bool;       (* no array / container reachable from the result shares storage with a (non-receiver) operand *)
   r_vis_result : bool;     (* after writing through every result array, some (non-receiver) operand changed *)
-  r_vis_operand : bool     (* after writing through every (non-receiver) operand array, some result array changed *)
+  r_vis_operand : bool;    (* after writing through every (non-receiver) operand array, some result array changed *)
+  r_extra_ok : bool        (* no-copy rows: nothing is shared beyond the pairs the documentation of the construction
+                              permits (same-position buffer of the argument); true when the row names no such set *)
 }.
 
 (* the property's demand on a row *)
 Definition row_ok (r : row) : bool :=
   match r_kind r with
   | KPure | KInplace => r_unchanged r && r_disjoint r && negb (r_vis_result r) && negb (r_vis_operand r)
-  | KNoCopy => r_unchanged r
+  | KNoCopy => r_unchanged r && r_extra_ok r
   end.
 
 (* what the store model predicts from the measured disjointness bit: run the two-object scenario in the model.
@@ -258,11 +260,12 @@ Proof. intros [|]; reflexivity. Qed.
    property demands; and the frame prediction for a disjoint row is exactly "no cross-write visible" *)
 Lemma row_check_sound : forall r, row_check r = true ->
   r_unchanged r = true /\
-  (r_kind r <> KNoCopy -> r_disjoint r = true /\ r_vis_result r = false /\ r_vis_operand r = false).
+  (r_kind r <> KNoCopy -> r_disjoint r = true /\ r_vis_result r = false /\ r_vis_operand r = false) /\
+  (r_kind r = KNoCopy -> r_extra_ok r = true).
 Proof.
-  intros [k u d vr vo]. unfold row_check, row_ok, frame_hyp_holds, frame_pred_ok. simpl.
-  destruct k, u, d, vr, vo; simpl; intro H; try discriminate; split; try reflexivity; intro N;
-    try (exfalso; apply N; reflexivity); repeat split; reflexivity.
+  intros [k u d vr vo ex]. unfold row_check, row_ok, frame_hyp_holds, frame_pred_ok. simpl.
+  destruct k, u, d, vr, vo, ex; simpl; intro H; try discriminate; split; try reflexivity; split; intro N;
+    try discriminate; try (exfalso; apply N; reflexivity); repeat split; reflexivity.
 Qed.
 
 (* the simulated scenario is an instance of the frame theorem (disjoint case), not an independent stipulation *)
